@@ -176,7 +176,8 @@ def addStaticsCell (source : List Cell) (statics : List String) (c : Cell) : Cel
 /-- `add_statics(triangle, source, statics)`. Python walks `triangle.slices` (first-appearance
 order of metadata, each slice in triangle order) and concatenates; cells that tie under the final
 stable sort share their metadata, hence sit in the same slice in their original relative order,
-so `Triangle(concatenation) = Triangle(map)`. -/
+so `Triangle(concatenation) = Triangle(map)` — proved: `addStaticsLit` below is the literal loop,
+`Properties.C10.addStaticsLit_eq` the equality. -/
 def addStatics (t source : List Cell) (statics : List String) : Except Err (List Cell) :=
   Triangle.ofCells (t.map (addStaticsCell source statics))
 
@@ -205,7 +206,8 @@ def periodMergeCell (b : List Cell) (suffix : Option String) (c : Cell) : Except
 /-- `period_merge(tri1, tri2, suffix)`. Python regroups the left cells by index (first-appearance
 order, original order inside a group) before `Triangle(...)`; as for `addStatics` ties of the final
 stable sort lie inside one group, so the regrouping does not change the result; any group with
-several right cells raises `ValueError` whichever group is visited first. -/
+several right cells raises `ValueError` whichever group is visited first — proved:
+`periodMergeLit` below is the literal loop, `Properties.C10.periodMergeLit_eq` the equality. -/
 def periodMerge (a b : List Cell) (suffix : Option String) : Except Err (List Cell) := do
   if kindMismatch a b then throw .valueError
   let out ← a.mapM (periodMergeCell b suffix)
@@ -238,14 +240,17 @@ def addStaticsSliceLit (slc srcSlice : List Cell) (statics : List String) : List
     | some s => c.addStatics s statics
     | none => c
 
+/-- body of `for key, slc in triangle.slices.items()`: `source_slices.get(key, None)` … -/
+def addStaticsBlockLit (sourceSlices : List (Metadata × List Cell)) (statics : List String)
+    (e : Metadata × List Cell) : List Cell :=
+  match sourceSlices.find? (fun s => s.1 == e.1) with
+  | some s => addStaticsSliceLit e.2 s.2 statics
+  | none => e.2
+
 /-- `add_statics`: loop over `triangle.slices.items()`, `source.slices.get(key)`, concatenate,
 `Triangle(rich_cells)` -/
 def addStaticsLit (t source : List Cell) (statics : List String) : Except Err (List Cell) :=
-  let sourceSlices := Triangle.slices source
-  Triangle.ofCells ((Triangle.slices t).flatMap fun e =>
-    match sourceSlices.find? (fun s => s.1 == e.1) with
-    | some s => addStaticsSliceLit e.2 s.2 statics
-    | none => e.2)
+  Triangle.ofCells ((Triangle.slices t).flatMap (addStaticsBlockLit (Triangle.slices source) statics))
 
 /-- one iteration of `for idx, cells in tri1_cells.items()` -/
 def periodMergeGroupLit (tri2 : List ((Date × Date × Metadata) × List Cell)) (suffix : Option String)
